@@ -238,15 +238,16 @@ func headerWrites(p *Prog, fn *ssa.Function) (buf ssa.Value, slots []codeSlot, p
 		}
 		return nil, nil, []string{"no write to a bytes.Buffer found"}
 	}
-	buf = writes[0].Call.Args[0]
+	buf = methodArgs(&writes[0].Call)[0]
 	off := 0
 	var prevAnchor ssa.Instruction
 	for i, w := range writes {
-		if w.Call.Args[0] != buf {
+		wargs := methodArgs(&w.Call)
+		if len(wargs) < 2 || wargs[0] != buf {
 			problems = append(problems, fmt.Sprintf("write #%d goes to a different buffer", i+1))
 			continue
 		}
-		arg := w.Call.Args[1]
+		arg := wargs[1]
 		gb, ok := arg.(*ssa.Call)
 		if !ok || gb.Call.StaticCallee() == nil || fnPkg(gb.Call.StaticCallee()) == nil || !strings.HasSuffix(fnPkg(gb.Call.StaticCallee()).Path(), "/getbytes") {
 			problems = append(problems, fmt.Sprintf("write #%d does not take its bytes from a getbytes scalar view", i+1))
@@ -668,6 +669,22 @@ func c14Frames(p *Prog, r *Report, fn *ssa.Function, buf ssa.Value, name, payloa
 			if _, isDbg := in.(*ssa.DebugRef); isDbg {
 				continue
 			}
+			// a method value of Write / Bytes that is only called (put := header.Write; put(x))
+			if mc, isMC := in.(*ssa.MakeClosure); isMC {
+				if f, isF := mc.Fn.(*ssa.Function); isF && (f.Name() == "Write$bound" || f.Name() == "Bytes$bound") {
+					onlyCalled := true
+					for _, r2 := range *mc.Referrers() {
+						if c, isCall := r2.(*ssa.Call); !isCall || c.Call.Value != ssa.Value(mc) {
+							if _, isDbg := r2.(*ssa.DebugRef); !isDbg {
+								onlyCalled = false
+							}
+						}
+					}
+					if onlyCalled {
+						continue
+					}
+				}
+			}
 			bad = p.InstrPos(in)
 		}
 		r.Check(bad == "", "C14.R3", name+": header buffer does not escape", p.Pos(fn.Pos()), "only Write and Bytes use it", "the header buffer is handed to other code at "+bad+" (it may be reused while its bytes are still referenced by a queued message)")
@@ -871,7 +888,17 @@ func c14R5(p *Prog, r *Report) {
 		}
 		done[fn] = true
 		r.Fn(FuncName(fn))
+		delegates := false
 		if scalar {
+			Instrs(fn, func(in ssa.Instruction) {
+				if ret, isRet := in.(*ssa.Return); isRet {
+					if call, isCall := ret.Results[0].(*ssa.Call); isCall && call.Call.StaticCallee() != nil && strings.HasPrefix(call.Call.StaticCallee().Name(), "FromSlice") {
+						delegates = true
+					}
+				}
+			})
+		}
+		if scalar && delegates {
 			// scalar views delegate to the slice view of a one-element literal holding the value
 			okS, why := false, "the scalar view does not return the slice view of []T{value}"
 			Instrs(fn, func(in ssa.Instruction) {
